@@ -23,6 +23,7 @@ the pinned code loses that id (`load_max_id_counterexample`, known finding F7a).
 * `prune_storage_eq_cache_partial`        with the CheckAndPutRegion callback, every stored region is still handed
                                           over exactly once while leftovers are deleted under the iteration, and
                                           afterwards storage and cache hold the same regions, pairwise compatible
+* `load_regions_once_flag`                LoadRegionsOnce marks the storage as loaded exactly when the load succeeded
 * `flush_makes_saved_visible`             region backend (repaired): after a flush `LoadRegion` returns for every id
                                           what was saved last and not deleted, for every save/delete/flush history
                                           and every batch size (automatic flushes included)
@@ -217,15 +218,17 @@ theorem tolerable_extracted (errs : List Bool) (h : (errs.filter (fun b => b)).l
 
 /-- **loadRegions, exactly once.**  For every kv in key order without the id 2^64 − 1 (see `kv_history` /
     `flush_makes_saved_visible` for where such kvs come from), every maximal and minimal page size (min ≥ 1,
-    max ≥ 1) and every tolerable error pattern: the load ends without error, the callback received exactly
+    max ≥ 1), all records readable (`bad` = cannot be unmarshalled) and every tolerable error pattern: the load ends without error, the callback received exactly
     the stored items in ascending id order (each once), and the storage is unchanged. -/
 theorem load_regions_exact_once_partial (kv : KV V) (hs : Sorted kv) (hb : Bounded kv)
+    (bad : Nat × V → Bool) (hbad : ∀ e ∈ kv, bad e = false)
     (maxLimit minLimit : Nat) (hmin : 1 ≤ minLimit) (hmax : 1 ≤ maxLimit) (errs : List Bool)
     (ht : Tolerable minLimit maxLimit errs) :
-    loadRegions (fun (_ : Unit) (_ : Nat × V) => ((), ([] : List Nat))) maxLimit minLimit kv () errs =
+    loadRegions (fun (_ : Unit) (_ : Nat × V) => ((), ([] : List Nat))) bad maxLimit minLimit kv () errs =
       some (false, { kv := kv, cb := (), loaded := kv }) := by
   unfold loadRegions
-  rw [loadRegionsLoop_spec _ _ _ plainCb_inv minLimit hmin _ 0 maxLimit errs _ hs hb (fun _ _ => trivial) trivial
+  rw [loadRegionsLoop_spec _ bad _ _ plainCb_inv minLimit hmin _ 0 maxLimit errs _ hs hb
+    (fun e he => ⟨trivial, hbad e he⟩) trivial
     (by decide) hmax ht (by rw [fromId_zero]; simp)]
   rw [fromId_zero]
   have : ∀ (items : KV V) (s : LoadSt V Unit),
@@ -240,11 +243,11 @@ theorem load_regions_exact_once_partial (kv : KV V) (hs : Sorted kv) (hb : Bound
 /-- the same for region values and the limits extracted from storage.go, after any save/delete history -/
 theorem load_regions_exact_once_extracted_partial (ops : List (KOp Meta)) (hid : ∀ op ∈ ops, op.id < maxU64)
     (errs : List Bool) (h6 : (errs.filter (fun b => b)).length ≤ 6) :
-    loadRegions plainCb PdModel.Generated.StorageLoad.maxKVRangeLimit PdModel.Generated.StorageLoad.minKVRangeLimit
-      (runKV [] ops) () errs = some (false, { kv := runKV [] ops, cb := (), loaded := runKV [] ops }) ∧
+    loadRegions plainCb (fun _ => false) PdModel.Generated.StorageLoad.maxKVRangeLimit
+      PdModel.Generated.StorageLoad.minKVRangeLimit (runKV [] ops) () errs = some (false, { kv := runKV [] ops, cb := (), loaded := runKV [] ops }) ∧
     ∀ e : Nat × Meta, e ∈ runKV [] ops ↔ specGet ops e.1 = some e.2 := by
   obtain ⟨hs, _, hload⟩ := kv_history ops (fun op h => Nat.le_of_lt (hid op h))
-  refine ⟨load_regions_exact_once_partial _ hs (bounded_of_history ops hid) _ _ (by decide) (by decide) errs
+  refine ⟨load_regions_exact_once_partial _ hs (bounded_of_history ops hid) _ (fun _ _ => rfl) _ _ (by decide) (by decide) errs
     (tolerable_extracted errs h6), fun e => by rw [mem_iff_kvLoad _ hs, hload]⟩
 
 /-- **F7a (known finding).**  An item with id 2^64 − 1 is stored but neither LoadStores nor loadRegions
@@ -253,7 +256,7 @@ theorem load_max_id_counterexample :
     let kv : KV Nat := runKV [] [.save (maxU64 - 1) 1, .save maxU64 2]
     kvLoad kv maxU64 = some 2 ∧
     loadStores kv 100 [] = some (false, [(maxU64 - 1, 1)]) ∧
-    (loadRegions (fun (_ : Unit) (_ : Nat × Nat) => ((), ([] : List Nat))) 10000 100 kv () []).map
+    (loadRegions (fun (_ : Unit) (_ : Nat × Nat) => ((), ([] : List Nat))) (fun _ => false) 10000 100 kv () []).map
       (fun r => (r.1, r.2.loaded)) = some (false, [(maxU64 - 1, 1)]) := by
   decide
 
@@ -265,17 +268,18 @@ theorem fold_loaded {σ : Type} (f : σ → Nat × V → σ × List Nat) (items 
   | nil => simp
   | cons e items ih => simp only [List.foldl_cons]; rw [ih]; simp [pageStep]
 
-/-- **Pruning.**  Storage in key order without the id 2^64 − 1, every value stored under its own id; the
-    callback is `CheckAndPutRegion` on an empty cache; any page sizes and any tolerable error pattern.  The
+/-- **Pruning.**  Storage in key order without the id 2^64 − 1, every value stored under its own id and
+    readable; the callback is `CheckAndPutRegion` on an empty cache; any page sizes and any tolerable error pattern.  The
     load ends without error; every stored region was handed to the callback exactly once, in id order,
     although stale and overlapped ones are being deleted from the storage during the iteration; afterwards
     every region left in the storage is in the cache, every cached region is in the storage (under its id),
     and the cached regions are pairwise compatible (different ids, disjoint ranges). -/
 theorem prune_storage_eq_cache_partial (kv : KV Meta) (hs : Sorted kv) (hb : Bounded kv) (hw : WellKeyed kv)
+    (bad : Nat × Meta → Bool) (hbad : ∀ e ∈ kv, bad e = false)
     (maxLimit minLimit : Nat) (hmin : 1 ≤ minLimit) (hmax : 1 ≤ maxLimit) (errs : List Bool)
     (ht : Tolerable minLimit maxLimit errs) :
     ∃ s : LoadSt Meta Cache,
-      loadRegions pruneCb maxLimit minLimit kv ([] : Cache) errs = some (false, s) ∧
+      loadRegions pruneCb bad maxLimit minLimit kv ([] : Cache) errs = some (false, s) ∧
       s.loaded = kv ∧
       (∀ e ∈ s.kv, ({ md := e.2 } : Region) ∈ s.cb) ∧
       (∀ r ∈ s.cb, (r.md.id, r.md) ∈ s.kv) ∧
@@ -283,8 +287,8 @@ theorem prune_storage_eq_cache_partial (kv : KV Meta) (hs : Sorted kv) (hb : Bou
       s.cb.Pairwise Compat := by
   refine ⟨kv.foldl (pageStep pruneCb) { kv := kv, cb := [], loaded := [] }, ?_, ?_, ?_⟩
   · unfold loadRegions
-    rw [loadRegionsLoop_spec pruneCb _ _ pruneCb_inv minLimit hmin _ 0 maxLimit errs
-      { kv := kv, cb := [], loaded := [] } hs hb hw
+    rw [loadRegionsLoop_spec pruneCb bad _ _ pruneCb_inv minLimit hmin _ 0 maxLimit errs
+      { kv := kv, cb := [], loaded := [] } hs hb (fun e he => ⟨hw e he, hbad e he⟩)
       (by intro r hr; cases hr) (by decide) hmax ht (by rw [fromId_zero]; simp)]
     rw [fromId_zero]
   · rw [fold_loaded]; simp
@@ -293,6 +297,32 @@ theorem prune_storage_eq_cache_partial (kv : KV Meta) (hs : Sorted kv) (hb : Bou
     rcases h.stored e he with h1 | h1
     · cases h1
     · exact h1
+
+/-- **LoadRegionsOnce.**  The "already loaded" flag is set exactly when a load has succeeded: after a load
+    that failed part-way (unreadable record, too many failing calls) a retry on the same Storage loads again,
+    and by `prune_storage_eq_cache_partial` a successful return leaves storage = cache; once set, later calls
+    do nothing. -/
+theorem load_regions_once_flag {σ : Type} (f : σ → Nat × V → σ × List Nat) (bad : Nat × V → Bool)
+    (maxLimit minLimit : Nat) (kv : KV V) (init : σ) (errs : List Bool) :
+    ((loadRegionsOnce f bad maxLimit minLimit false kv init errs).1 = true ↔
+      ∃ s, loadRegions f bad maxLimit minLimit kv init errs = some (false, s)) ∧
+    (loadRegionsOnce f bad maxLimit minLimit false kv init errs).2 =
+      some (loadRegions f bad maxLimit minLimit kv init errs) ∧
+    loadRegionsOnce f bad maxLimit minLimit true kv init errs = (true, none) := by
+  unfold loadRegionsOnce
+  refine ⟨?_, ?_, by simp⟩
+  · simp only [Bool.false_eq_true, if_false]
+    cases h : loadRegions f bad maxLimit minLimit kv init errs with
+    | none => simp
+    | some r =>
+      obtain ⟨e, s⟩ := r
+      cases e <;> simp
+  · simp only [Bool.false_eq_true, if_false]
+    cases h : loadRegions f bad maxLimit minLimit kv init errs with
+    | none => rfl
+    | some r =>
+      obtain ⟨e, s⟩ := r
+      cases e <;> rfl
 
 /-! ### the region backend -/
 
@@ -446,7 +476,7 @@ theorem flush_makes_saved_visible (batchSize : Nat) (ops : List ROp) (hid : ∀ 
 theorem saved_not_deleted_exact_region_backend_partial (batchSize : Nat) (ops : List ROp)
     (hid : ∀ op ∈ ops, op.id < maxU64) (errs : List Bool) (h6 : (errs.filter (fun b => b)).length ≤ 6) :
     let s := (runRS { batchSize := batchSize } ops).flush
-    loadRegions (fun (_ : Unit) (_ : Nat × Meta) => ((), ([] : List Nat)))
+    loadRegions (fun (_ : Unit) (_ : Nat × Meta) => ((), ([] : List Nat))) (fun _ => false)
       PdModel.Generated.StorageLoad.maxKVRangeLimit PdModel.Generated.StorageLoad.minKVRangeLimit s.ldb () errs =
         some (false, { kv := s.ldb, cb := (), loaded := s.ldb }) ∧
     ∀ e : Nat × Meta, e ∈ s.ldb ↔ specGet (toKOps ops) e.1 = some e.2 := by
@@ -483,7 +513,7 @@ theorem saved_not_deleted_exact_region_backend_partial (batchSize : Nat) (ops : 
     obtain ⟨o, ho, hoi⟩ := this ops k hk
     have := hid o ho
     omega
-  exact ⟨load_regions_exact_once_partial _ hs hb _ _ (by decide) (by decide) errs (tolerable_extracted errs h6),
+  exact ⟨load_regions_exact_once_partial _ hs hb _ (fun _ _ => rfl) _ _ (by decide) (by decide) errs (tolerable_extracted errs h6),
     fun e => by rw [mem_iff_kvLoad _ hs, hl]⟩
 
 /-- ids an operation touches -/
